@@ -4,7 +4,8 @@ import EmmyVerif.Model.Flow
 
 `F`: a preamble of `local v_i = <literal>` / `local v_i` declarations followed by a block of
 assignments `v = <literal>`, probes `p(id, v)`, and `if / elseif / else` whose conditions are built
-from `v`, `type(v) == "T"`, `type(v) ~= "T"`, `v == nil`, `v ~= nil`, `not`, `and`, `or`.
+from `v`, `type(v) == "T"`, `type(v) ~= "T"`, `v == nil`, `v ~= nil`, `v == <literal>`, `v ~= <literal>`,
+`t_v == "T"` / `t_v ~= "T"` for a preamble local `t_v = type(v)`, `not`, `and`, `or`.
 
 `Sem` (`exec`): big-step execution recording `(probe id, variable, value)` at every probe reached.
 
@@ -31,12 +32,30 @@ inductive TName where
   | nil | boolean | number | string | table
   deriving DecidableEq, Repr, Inhabited
 
-inductive Cond where
+/-- literals that may appear on the right of `==` / `~=` (no `nil`: that is `isNil`; no table constructor) -/
+inductive CLit where
+  | bool (b : Bool) | int (n : Nat) | flt (k : Nat) | str (s : Nat)
+  deriving DecidableEq, Repr, Inhabited
+
+def CLit.lit : CLit → Lit
+  | .bool b => .bool b | .int n => .int n | .flt k => .flt k | .str s => .str s
+
+/-- a condition that is not `and`/`or`/`not`: it gets a `TrueCondition` and a `FalseCondition` node -/
+inductive Leaf where
   | truthy (x : Nat)
   /-- `type(x) == "t"` (`neg = false`) or `type(x) ~= "t"` (`neg = true`) -/
   | typeIs (x : Nat) (t : TName) (neg : Bool)
   /-- `x == nil` / `x ~= nil` -/
   | isNil (x : Nat) (neg : Bool)
+  /-- `x == <literal>` / `x ~= <literal>` -/
+  | eqLit (x : Nat) (l : CLit) (neg : Bool)
+  /-- `t_x == "t"` / `t_x ~= "t"` where the preamble declared `local t_x = type(v_x)`; `tn0` is the string stored
+  in `t_x` (the `type()` of the initial value of `v_x`; `Prog.storedOK`) -/
+  | stored (x : Nat) (tn0 : TName) (t : TName) (neg : Bool)
+  deriving Repr, Inhabited
+
+inductive Cond where
+  | leaf (l : Leaf)
   | not (c : Cond)
   | and (a b : Cond)
   | or (a b : Cond)
@@ -80,10 +99,16 @@ abbrev Env := List Val
 
 def Env.get (ρ : Env) (x : Nat) : Val := ρ.getD x .nil
 
-def Cond.eval (ρ : Env) : Cond → Bool
+/-- evaluation of a leaf condition -/
+def Leaf.eval (ρ : Env) : Leaf → Bool
   | .truthy x => (ρ.get x).truthy
   | .typeIs x t neg => ((ρ.get x).typeName == t) != neg
   | .isNil x neg => ((ρ.get x) == .nil) != neg
+  | .eqLit x l neg => ((ρ.get x) == l.lit.val) != neg
+  | .stored _ tn0 t neg => (tn0 == t) != neg
+
+def Cond.eval (ρ : Env) : Cond → Bool
+  | .leaf l => l.eval ρ
   | .not c => !(c.eval ρ)
   | .and a b => a.eval ρ && b.eval ρ
   | .or a b => a.eval ρ || b.eval ρ
@@ -245,7 +270,7 @@ def passNode (nv : Nat) (ant : Pt) : St :=
 inductive Narrow where
   | truthiness (flow : Bool)
   | typeGuard (g : Atom) (flow : Bool)
-  | eqNil (flow : Bool)
+  | eqLit (e : Atom) (flow : Bool)
   deriving Repr, Inhabited
 
 /-- `PendingConditionNarrow::apply` -/
@@ -254,25 +279,21 @@ def Narrow.apply : Narrow → Ty → Ty
   | .truthiness false, t => narrowFalseOrNil t
   | .typeGuard g true, t => guardTrue t g
   | .typeGuard g false, t => guardFalse t g
-  | .eqNil flow, t => Flow.eqNil t flow
+  | .eqLit e flow, t => Flow.eqLit t e flow
 
 def TName.atom : TName → Atom
   | .nil => .nil | .boolean => .boolean | .number => .number | .string => .string | .table => .table
-
-/-- a condition that is not `and`/`or` (possibly under `not`): it gets a `TrueCondition` and a
-`FalseCondition` node -/
-inductive Leaf where
-  | truthy (x : Nat) | typeIs (x : Nat) (t : TName) (neg : Bool) | isNil (x : Nat) (neg : Bool)
-  deriving Repr, Inhabited
 
 /-- `get_type_at_condition_flow` for variable `x` on the `flow` edge of leaf condition `l`:
 `none` = `ConditionFlowAction::Continue`. -/
 def Leaf.action (l : Leaf) (flow : Bool) (x : Nat) : Option Narrow :=
   match l with
   | .truthy y => if x == y then some (.truthiness flow) else none
-  | .typeIs y t neg =>
-    if x == y then some (.typeGuard t.atom (flow != neg)) else none
-  | .isNil y neg => if x == y then some (.eqNil (flow != neg)) else none
+  | .typeIs y t neg => if x == y then some (.typeGuard t.atom (flow != neg)) else none
+  | .isNil y neg => if x == y then some (.eqLit .nil (flow != neg)) else none
+  | .eqLit y l neg => if x == y then some (.eqLit l.lit.ty (flow != neg)) else none
+  -- `maybe_type_guard_binary_action`: a name bound to `type(y)` (`decl_bind_expr_ref`) narrows `y`
+  | .stored y _ t neg => if x == y then some (.typeGuard t.atom (flow != neg)) else none
 
 /-- result of walking through a condition node whose action is the pending narrow `nr` -/
 def narrowRes (nr : Narrow) (m : Mode) (r : Res) : Res :=
@@ -345,20 +366,14 @@ def assignNode (nv : Nat) (declOf : Nat → Atom) (y : Nat) (e : Atom) (ant : Pt
 
 /-- the condition under any number of `not`s is not `and`/`or` (`!is_binary_logical`) -/
 def Cond.leaf? : Cond → Option (Leaf × Bool)
-  | .truthy x => some (.truthy x, false)
-  | .typeIs x t neg => some (.typeIs x t neg, false)
-  | .isNil x neg => some (.isNil x neg, false)
+  | .leaf l => some (l, false)
   | .not c => (c.leaf?).map fun (l, inv) => (l, !inv)
   | .and _ _ => none
   | .or _ _ => none
 
 /-- the antecedents added to the true target and to the false target, in order -/
 def Cond.edges (nv : Nat) (cur : Pt) : Cond → List Pt × List Pt
-  | .truthy x => ([.node (condNode nv (.truthy x) true cur)], [.node (condNode nv (.truthy x) false cur)])
-  | .typeIs x t neg =>
-    ([.node (condNode nv (.typeIs x t neg) true cur)], [.node (condNode nv (.typeIs x t neg) false cur)])
-  | .isNil x neg =>
-    ([.node (condNode nv (.isNil x neg) true cur)], [.node (condNode nv (.isNil x neg) false cur)])
+  | .leaf l => ([.node (condNode nv l true cur)], [.node (condNode nv l false cur)])
   | .not c =>
     match c.leaf? with
     | some (l, inv) =>
